@@ -222,6 +222,66 @@ func runC13(c *Ctx) {
 			}
 		}
 	}
+	// (a'') every primitive as the body of a definition: relocation must handle every instruction kind
+	if c.Level("transparency:primitives") {
+		t2 := texts(alphaD2, 3)
+		var bodies [][]*T
+		for _, a := range atomsD2() {
+			bodies = append(bodies, []*T{a}, []*T{loop(0, -1, false, a)}, []*T{a, loop(0, 1, false, a)}, []*T{or(seq(a), lit("b"))})
+		}
+		for _, body := range bodies {
+			for _, ctx := range []string{"bare", "prefix", "loop", "twice", "after-capture"} {
+				body, ctx := body, ctx
+				if !c.Unit(func() string { return ctx + ": " + renderSeq(body) }) {
+					continue
+				}
+				c.Count("programs", 1)
+				place := func(x func(i int) *T) []*T {
+					if ctx == "after-capture" {
+						return []*T{capt(seq(class("any", false), loop(0, 1, false, lit("b"))), "v"), x(0), loop(0, 1, false, ref("v"))}
+					}
+					return d5Place(ctx, x)
+				}
+				base := &Prog{Body: place(func(int) *T { return seq(body...) })}
+				bv, err, pi := compileSafe(base.Source("find all"))
+				if err != nil || pi != nil {
+					c.Violation("COMPILE primitives-base", fmt.Sprintf("%q rejected: %v %v", base.Source("find all"), err, pi), map[string]any{"kind": "compile", "src": base.Source("find all"), "want": "accepted"})
+					continue
+				}
+				variants := []*Prog{
+					{Defs: []*GDef{{Name: "s", Body: body}}, Body: place(func(int) *T { return &T{K: GLOBAL, S: "s"} })},
+					{Defs: []*GDef{{Name: "q", Body: body}, {Name: "s", Body: []*T{{K: GLOBAL, S: "q"}}}}, Body: place(func(int) *T { return &T{K: GLOBAL, S: "s"} })},
+					{Body: place(func(i int) *T {
+						if i == 0 {
+							return &T{K: SUBDEF, S: "s", Kids: body}
+						}
+						return &T{K: CALL, S: "s"}
+					})},
+				}
+				for vi, p := range variants {
+					src := p.Source("find all")
+					v, err, pi := compileSafe(src)
+					if err != nil || pi != nil {
+						c.Violation("COMPILE primitives", fmt.Sprintf("%q rejected: %v %v", src, err, pi), map[string]any{"kind": "compile", "src": src, "want": "accepted"})
+						continue
+					}
+					for _, t := range t2 {
+						c.Eval(1)
+						bm, _ := runSafe(bv, t)
+						ms, pi := runSafe(v, t)
+						want, got := spansOf(bm), spansOf(ms)
+						if len(want) > 0 {
+							c.Nontrivial(1)
+						}
+						if pi != nil || !spansEqual(got, want, true) {
+							c.Violation(fmt.Sprintf("TRANSPARENCY primitive v%d %s %s", vi, ctx, classKey(&Prog{Body: body})), fmt.Sprintf("%q on %q: %s (panic %v), but written out (%q) gives %s", src, t, fmtSpans(got, true), pi, base.Source("find all"), fmtSpans(want, true)),
+								map[string]any{"kind": "spans", "src": src, "text": t, "want": fmtSpans(want, true), "vars": true})
+						}
+					}
+				}
+			}
+		}
+	}
 	// (a') nested definitions: a stored pattern that itself references another
 	// definition more than once (relocation must move call targets and ids together)
 	for n := 1; n <= c.Pick(2, 3); n++ {
